@@ -162,7 +162,7 @@ fn linear_paths<'a, Sec: UnwindSection<Sl<'a>>>(ctx: &mut Ctx, sec: &Sec, kind: 
             }
             Ok(Ok(row)) => {
                 // must be the row containing `a` of one of the acceptable FDEs
-                let ok = acc.iter().chain(acc_wrapped.iter()).flatten().any(|&k| fdes[k].rows.iter().any(|m| m.start <= a && a < m.end && glue::diff_row(&row, m).is_none()));
+                let ok = acc.iter().chain(acc_wrapped.iter()).flatten().any(|&k| fdes[k].rows.iter().any(|m| m.start <= a && (a < m.end || m.end < m.start) && glue::diff_row(&row, m).is_none()));
                 if !ok {
                     ctx.fail(&e_unw, "unwind-info", "wrong-row", format!("{} address {:#x}: row {}, scan accepts {:?}", case(), a, glue::render_row(row.start, row.end, &row.row), acc));
                     return;
@@ -369,7 +369,7 @@ pub fn hdr_paths(ctx: &mut Ctx, bytes: &[u8], big: bool, addr: u8, eh_bases: &Ba
         }
         match (u, cov) {
             (Err(gimli::Error::NoUnwindInfoForAddress), Cov::No | Cov::Maybe) => {}
-            (Ok(Ok(row)), Cov::Yes | Cov::Maybe) if fdes[k].rows.iter().any(|m| m.start <= a && a < m.end && glue::diff_row(&row, m).is_none()) => {}
+            (Ok(Ok(row)), Cov::Yes | Cov::Maybe) if fdes[k].rows.iter().any(|m| m.start <= a && (a < m.end || m.end < m.start) && glue::diff_row(&row, m).is_none()) => {}
             (other, _) => {
                 ctx.fail(e_unw, "hdr-unwind-info", "wrong-row", format!("{} address {:#x}: {:?} covering={:?}", hcase(), a, other.map(|r| r.map(|x| glue::render_row(x.start, x.end, &x.row))), cov));
                 return;
